@@ -68,7 +68,11 @@ var statusCmd = &cobra.Command{
 		}
 
 		// compare index with HEAD commit
-		treeObj, err := object.GetObject(client.RootGoitPath, client.Head.Commit.Tree)
+		// before the first commit, the index is compared with an empty tree
+		treeObj, err := object.NewObject(object.TreeObject, []byte{})
+		if client.Head.Commit != nil {
+			treeObj, err = object.GetObject(client.RootGoitPath, client.Head.Commit.Tree)
+		}
 		if err != nil {
 			return fmt.Errorf("fail to get tree object: %w", err)
 		}
